@@ -5,6 +5,7 @@ import (
 	"sort"
 	"strings"
 
+	"github.com/pentops/j5/lib/verifshim/cmpb"
 	"google.golang.org/protobuf/reflect/protoreflect"
 	"verifharness/vh"
 )
@@ -63,6 +64,17 @@ func (s serviceAbs) Coq() string {
 		ms = append(ms, fmt.Sprintf("mkMethod true %s %s %s %s %s", h, b(m.RawResponse), b(m.PathOK), b(m.Options), b(m.ListRequest)))
 	}
 	return fmt.Sprintf("(mkService [%s] %s)", strings.Join(ms, "; "), b(s.Options))
+}
+
+// LCoq: the located service (model/CmpbFront.v LService): each method with the path of its SourceNode
+func (s serviceAbs) LCoq(dp []string) string {
+	var ms []string
+	for i, m := range s.Methods {
+		h := map[string]string{"GET": "HGet", "POST": "HPost", "PUT": "HPut", "PATCH": "HPatch", "DELETE": "HDelete"}[m.HTTP]
+		mp := append(append([]string{}, dp...), "methods", fmt.Sprint(i), "request") // ServiceMethodNode.Source (service.go)
+		ms = append(ms, fmt.Sprintf("(mkMethod true %s %s %s %s %s, %s)", h, b(m.RawResponse), b(m.PathOK), b(m.Options), b(m.ListRequest), pathCoq(mp)))
+	}
+	return fmt.Sprintf("LService %s %s [%s]", pathCoq(dp), b(s.Options), strings.Join(ms, "; "))
 }
 
 func (s serviceAbs) Text() string { return "package foo.v1\n\n" + s.Decl("Thing") }
@@ -132,6 +144,7 @@ type declObs struct {
 	Imports []string
 	Exts    []string
 	ErrText string
+	Pos     []cmpb.Pos
 }
 
 // observeDecl compiles the one-declaration file and collects, from the file at `path`, the imports
@@ -146,6 +159,7 @@ func observeDecl(text, path string) declObs {
 		o.Verdict, o.ErrText = "VPanic", fmt.Sprint(c.Panic)
 	case c.Err != nil:
 		o.ErrText = c.Err.Error()
+		o.Pos = cmpb.Positions(c.Err)
 		switch {
 		case strings.Contains(o.ErrText, "convertJ5File"):
 			o.Verdict = "VConvErr"
@@ -202,15 +216,16 @@ type declAbs struct {
 
 // genFile draws 1-5 declarations: objects with 0-5 properties of the isolation matrix (references only to
 // foo/v1/types.j5s or inline), oneofs with object members, enums, services, topics.
-func genFile(r *vh.Rand, pool []propT) (coq string, files map[string]string, inLang bool, listReq bool) {
-	var cs, ts []string
+func genFile(r *vh.Rand, pool []propT) (coq string, files map[string]string, inLang bool, listReq bool, lcoq string) {
+	var cs, ts, lcs []string
 	inLang = true
 	needTypes := false
 	n := r.Range(1, 5)
 	for i := 0; i < n; i++ {
 		switch k := r.Intn(10); {
 		case k < 5:
-			var ps, ls []string
+			var ps, ls, lps []string
+			dp := declPath(i, "object")
 			for j := r.Intn(6); j > 0; j-- {
 				p := vh.Pick(r, pool)
 				switch p.Shape.Item.Ref {
@@ -219,6 +234,7 @@ func genFile(r *vh.Rand, pool []propT) (coq string, files map[string]string, inL
 				case rMsgOther, rEnumOther:
 					needTypes = true
 				}
+				lps = append(lps, lpropCoq(p, dp, len(ps)))
 				ps = append(ps, p.Coq())
 				for _, l := range p.fieldLines(fmt.Sprintf("f%d", len(ps))) {
 					ls = append(ls, "  "+l)
@@ -228,15 +244,20 @@ func genFile(r *vh.Rand, pool []propT) (coq string, files map[string]string, inL
 				}
 			}
 			cs = append(cs, fmt.Sprintf("DObject false [%s]", strings.Join(ps, "; ")))
+			lcs = append(lcs, fmt.Sprintf("LObject %s false [%s]", pathCoq(dp), strings.Join(lps, "; ")))
 			ts = append(ts, fmt.Sprintf("object Obj%d {\n%s\n}\n", i, strings.Join(ls, "\n")))
 		case k < 6:
 			m := r.Range(1, 3)
-			var ps, ls []string
+			var ps, ls, lps []string
+			dp := declPath(i, "oneof")
+			inl := propT{Shape: shapeT{Kind: "plain", Item: fty{Kind: "object", Ref: rInlineObject}}}
 			for j := 0; j < m; j++ {
+				lps = append(lps, lpropCoq(inl, dp, j))
 				ps = append(ps, "mkProp false (Plain (TObject RInlineObject false false)) false false")
 				ls = append(ls, fmt.Sprintf("  option o%d object {\n    field x string\n  }", j))
 			}
 			cs = append(cs, fmt.Sprintf("DOneof [%s]", strings.Join(ps, "; ")))
+			lcs = append(lcs, fmt.Sprintf("LOneof %s [%s]", pathCoq(dp), strings.Join(lps, "; ")))
 			ts = append(ts, fmt.Sprintf("oneof One%d {\n%s\n}\n", i, strings.Join(ls, "\n")))
 		case k < 7:
 			e := enumAbs{Info: r.Bool()}
@@ -244,6 +265,7 @@ func genFile(r *vh.Rand, pool []propT) (coq string, files map[string]string, inL
 				e.OptInfo = append(e.OptInfo, r.Chance(40))
 			}
 			cs = append(cs, "DEnum "+e.Coq())
+			lcs = append(lcs, fmt.Sprintf("LEnum %s %s", pathCoq(declPath(i, "enum")), e.Coq()))
 			ts = append(ts, e.Decl(fmt.Sprintf("Enum%d", i)))
 		case k < 9:
 			sv := serviceAbs{Options: r.Bool()}
@@ -259,6 +281,7 @@ func genFile(r *vh.Rand, pool []propT) (coq string, files map[string]string, inL
 				}
 			}
 			cs = append(cs, "DService "+sv.Coq())
+			lcs = append(lcs, sv.LCoq(declPath(i, "service")))
 			ts = append(ts, sv.Decl(fmt.Sprintf("Svc%d", i)))
 		default:
 			m := r.Intn(3)
@@ -267,6 +290,7 @@ func genFile(r *vh.Rand, pool []propT) (coq string, files map[string]string, inL
 				ls = append(ls, fmt.Sprintf("  message Post%d%d {\n    field x string\n  }", i, j))
 			}
 			cs = append(cs, fmt.Sprintf("DTopic (TPublish %d)", m))
+			lcs = append(lcs, fmt.Sprintf("LTopic %s (TPublish %d)", pathCoq(declPath(i, "topic")), m))
 			ts = append(ts, fmt.Sprintf("topic Top%d publish {\n%s\n}\n", i, strings.Join(ls, "\n")))
 		}
 	}
@@ -274,6 +298,6 @@ func genFile(r *vh.Rand, pool []propT) (coq string, files map[string]string, inL
 	if needTypes {
 		files["foo/v1/types.j5s"] = "package foo.v1\n\n" + refDecls
 	}
-	return "[" + strings.Join(cs, "; ") + "]", files, inLang, listReq
+	return "[" + strings.Join(cs, "; ") + "]", files, inLang, listReq, "[" + strings.Join(lcs, "; ") + "]"
 }
 
